@@ -129,12 +129,30 @@ func genC10(seed uint64, run int, tier string) Scenario {
 		last     bool
 	}
 	var stages []st
-	for i := 0; i <= k; i++ {
-		for j, sg := range round {
-			m := &peer.Mode{Name: fmt.Sprintf("login:%d:%s", len(stages), sg.kind), Prompt: sg.prompt, NoEcho: sg.kind != "user"}
-			stages = append(stages, st{m: m, kind: sg.kind, roundEnd: j == len(round)-1, last: i == k && j == len(round)-1})
-			plan.Asks = append(plan.Asks, sg.kind)
+	// the device asks the credentials of a round in order; after a rejected final credential it
+	// either starts the round over or asks that credential again, k times in total
+	pos, left := 0, k
+	for {
+		sg := round[pos]
+		m := &peer.Mode{Name: fmt.Sprintf("login:%d:%s", len(stages), sg.kind), Prompt: sg.prompt, NoEcho: sg.kind != "user"}
+		s1 := st{m: m, kind: sg.kind}
+		plan.Asks = append(plan.Asks, sg.kind)
+		if pos < len(round)-1 {
+			pos++
+			stages = append(stages, s1)
+
+			continue
 		}
+		s1.roundEnd = true
+		if left == 0 {
+			s1.last = true
+			stages = append(stages, s1)
+
+			break
+		}
+		left--
+		stages = append(stages, s1)
+		pos = pick(r, 0, 0, len(round)-1)
 	}
 	// terminal outcomes other than the shell: the dialogue is cut after `cut` asks
 	cut := len(stages)
@@ -219,6 +237,11 @@ func genC10(seed uint64, run int, tier string) Scenario {
 	}
 	sc.Plan = plan
 	sc.Ops = []OpSpec{{Kind: "getprompt"}, {Kind: "send", Cmd: cmd, Lines: [][]string{lines}}, {Kind: "close"}}
+	if r.IntN(3) == 0 {
+		// the first operation reads everything that is there: it must be exactly what the device
+		// sent after the last credential, in order
+		sc.Ops = []OpSpec{{Kind: "idle", IdleUS: sc.ReadDelayUS*30 + int64(sc.Net.LatMax/time.Microsecond)*10}, {Kind: "readall"}, {Kind: "close"}}
+	}
 	sc.Class = sc.Auth + "/" + plan.End
 	if plan.WantOpen == "auth" {
 		sc.Class = sc.Auth + "/too-many-prompts"
@@ -364,6 +387,28 @@ func runC10(env *Env, s Scenario) {
 	}
 	if loginLines != len(sc.Plan.Asks) {
 		env.Fail("answered-count", "", "client answered %d login prompts, device asked %d", loginLines, len(sc.Plan.Asks))
+	}
+	if len(sr.Recs) >= 2 && sc.Ops[1].Kind == "readall" {
+		// everything the device sent after it received the last credential, CR removed
+		ra := &sr.Recs[1]
+		var from int
+		for _, w := range sr.Tr.Writes[:sr.OpenRec.WritesAtEnd] {
+			from = w.Emitted
+		}
+		if len(sc.Plan.Asks) == 0 {
+			from = 0
+		}
+		want := strings.ReplaceAll(string(sr.Tr.Out()[from:]), "\r", "")
+		env.Probe("first-op-readall")
+		// the tail of the last prompt (bytes after the point where its pattern already matched)
+		// may legitimately precede it
+		before := strings.ReplaceAll(string(sr.Tr.Out()[:from]), "\r", "")
+		okTail := strings.HasSuffix(ra.Result, want) && strings.HasSuffix(before, strings.TrimSuffix(ra.Result, want))
+		if ra.Err != nil || !okTail {
+			env.Fail("login-bytes-not-preserved", "", "the first operation (read everything) returned %q, %v; the device sent %q after the last credential", ra.Result, ra.Err, want)
+		}
+
+		return
 	}
 	// after a successful login the first operations see the device's prompt and are in sync
 	if len(sr.Recs) >= 2 {
